@@ -69,8 +69,9 @@ SKnownMeasure(m) ==
 RowMarginalKey(m, tk, re) ==
   CASE m = "unweighted_base" -> RowDiffNaN(re, R(RowBase(tk, re, AnyEl(DimC), "n")))
     [] m = "weighted_base"   -> RowDiffNaN(re, R(RowBase(tk, re, AnyEl(DimC), WS)))
-    [] m = "table_proportion" ->
-         Div(R(RowBase(tk, re, AnyEl(DimC), WS)), R(TableBase(tk, re, AnyEl(DimC), WS)))
+    [] m = "table_proportion" ->      \* the public rows_margin_proportion
+         IF IsDiff(re) /\ HasY /\ ValidCounts THEN NaN
+         ELSE Div(R(RowBase(tk, re, AnyEl(DimC), WS)), R(TableBase(tk, re, AnyEl(DimC), WS)))
     [] m = "scale_mean"   -> ScaleMean(tk, DimR, re)
     [] m = "scale_median" -> ScaleMedian(tk, DimR, re)
     [] m = "scale_mean_stddev" -> ScaleVar(tk, DimR, re)
